@@ -3,6 +3,7 @@ package rules
 import (
 	"fmt"
 	"go/ast"
+	"go/constant"
 	"go/token"
 	"go/types"
 	"sort"
@@ -1305,13 +1306,26 @@ func c18r14(rc *core.RC) {
 		return rest.Add(bound)
 	}
 	first, last := at(lo), at(hi)
+	// the scan cursor, found by its role (it indexes the text), whatever it is called
+	cursorNames := map[string]bool{}
+	ast.Inspect(fd.Body, func(m ast.Node) bool {
+		if id, isID := m.(*ast.Ident); isID && isCursorExpr(id) {
+			cursorNames[id.Name] = true
+		}
+		return true
+	})
 	off := func(l core.Linear) (int64, bool) {
+		n := 0
 		for k, v := range l.Terms {
-			if v != 0 && !(k == "cursor" && v == 1) {
+			if v == 0 {
+				continue
+			}
+			if !cursorNames[k] || v != 1 {
 				return 0, false
 			}
+			n++
 		}
-		return l.Const, l.Terms["cursor"] == 1
+		return l.Const, n == 1
 	}
 	f, okf := off(first)
 	l, okl := off(last)
@@ -1344,4 +1358,211 @@ func c18r14(rc *core.RC) {
 		return
 	}
 	rc.Check(f == 1 && l == 4 && adv == 4, key, loop.Pos(), "behind `\\u` the bytes at cursor+%d … cursor+%d are tested for hexadecimal digits and the cursor then advances by %d (required: +1 … +4, then 4): a byte that is not examined can be anything, the closing quote included", f, l, adv)
+}
+
+// ---- C18.R15 what HTMLEscape writes went through the escaping encoder ----
+
+// HTMLEscape answers with the text the encoder wrote for the decoded value: the encoder escapes <, >, & and the two
+// line separators. A shortcut that copies the source into dst is the same answer only for a source that holds none of
+// the five. The test that allows it has to look for the bytes '<', '>', '&' and for U+2028 and U+2029, either as the
+// byte 0xE2 (bytes.IndexByte, a byte comparison) or as the two characters (a rune search). bytes.ContainsAny and
+// bytes.IndexAny search by character: a lone "\xe2" in their set is an invalid character and matches no well-formed
+// text. Every Write (and WriteString, append) of the source parameter in HTMLEscape is examined: it has to stand
+// behind such a test; every other Write takes the result of marshal.
+func c18r15(rc *core.RC) {
+	p := rc.P
+	fd := p.Func("json", "HTMLEscape")
+	if fd == nil || fd.Body == nil {
+		rc.Unknown("json.HTMLEscape", token.NoPos, "function not found")
+		return
+	}
+	info := p.Info(fd)
+	rc.Touch("json.HTMLEscape")
+	var src types.Object
+	for _, f := range fd.Type.Params.List {
+		if t := info.TypeOf(f.Type); t != nil && t.String() == "[]byte" && len(f.Names) > 0 {
+			src = info.Defs[f.Names[0]]
+		}
+	}
+	if src == nil {
+		rc.Unknown("json.HTMLEscape/source", fd.Pos(), "no []byte parameter")
+		return
+	}
+	usesSrc := func(e ast.Expr) bool {
+		hit := false
+		ast.Inspect(e, func(m ast.Node) bool {
+			if id, ok := m.(*ast.Ident); ok && core.ObjOf(info, id) == src {
+				hit = true
+			}
+			return true
+		})
+		return hit
+	}
+	// what a search expression looks for: bytes and characters
+	type found struct {
+		bytes map[byte]bool
+		runes map[rune]bool
+		ok    bool
+	}
+	var search func(info *types.Info, e ast.Expr, depth int) found
+	merge := func(a, b found) found {
+		if !a.ok || !b.ok {
+			return found{}
+		}
+		for k := range b.bytes {
+			a.bytes[k] = true
+		}
+		for k := range b.runes {
+			a.runes[k] = true
+		}
+		return a
+	}
+	strConst := func(info *types.Info, e ast.Expr) (string, bool) {
+		e = core.Unparen(e)
+		if c, ok := e.(*ast.CallExpr); ok && len(c.Args) == 1 {
+			if tv, ok := info.Types[c.Fun]; ok && tv.IsType() {
+				e = core.Unparen(c.Args[0])
+			}
+		}
+		if tv, ok := info.Types[e]; ok && tv.Value != nil && tv.Value.Kind() == constant.String {
+			return constant.StringVal(tv.Value), true
+		}
+		return "", false
+	}
+	search = func(info *types.Info, e ast.Expr, depth int) found {
+		e = core.Unparen(e)
+		switch x := e.(type) {
+		case *ast.BinaryExpr:
+			switch x.Op {
+			case token.LOR:
+				return merge(search(info, x.X, depth), search(info, x.Y, depth))
+			case token.GEQ, token.NEQ, token.GTR:
+				// Index…(src, …) >= 0, != -1, > -1
+				if c, ok := core.Unparen(x.X).(*ast.CallExpr); ok {
+					if v, isC := core.ConstInt(info, x.Y); isC && ((x.Op == token.GEQ && v == 0) || (x.Op != token.GEQ && v == -1)) {
+						return search(info, c, depth)
+					}
+				}
+			}
+			return found{}
+		case *ast.CallExpr:
+			cn := core.CalleeName(info, x)
+			out := found{bytes: map[byte]bool{}, runes: map[rune]bool{}, ok: true}
+			switch cn {
+			case "bytes.ContainsAny", "bytes.IndexAny":
+				s, ok := strConst(info, x.Args[1])
+				if !ok {
+					return found{}
+				}
+				for _, r := range s {
+					if r < 0x80 {
+						out.bytes[byte(r)] = true
+					} else if r != 0xFFFD {
+						out.runes[r] = true
+					}
+				}
+				return out
+			case "bytes.IndexByte":
+				if v, ok := core.ConstInt(info, x.Args[1]); ok {
+					out.bytes[byte(v)] = true
+					return out
+				}
+			case "bytes.ContainsRune", "bytes.IndexRune":
+				if v, ok := core.ConstInt(info, x.Args[1]); ok {
+					if v < 0x80 {
+						out.bytes[byte(v)] = true
+					} else {
+						out.runes[rune(v)] = true
+					}
+					return out
+				}
+			case "bytes.Contains", "bytes.Index":
+				if s, ok := strConst(info, x.Args[1]); ok {
+					rs := []rune(s)
+					if len(s) == 1 {
+						out.bytes[s[0]] = true
+						return out
+					}
+					if len(rs) == 1 && rs[0] != 0xFFFD {
+						out.runes[rs[0]] = true
+						return out
+					}
+				}
+			default:
+				// a predicate of the module with a body of one return
+				if depth < 2 {
+					if f := core.Callee(info, x); f != nil {
+						if d := p.DeclOf(f); d != nil && d.Body != nil && len(d.Body.List) == 1 {
+							if r, ok := d.Body.List[0].(*ast.ReturnStmt); ok && len(r.Results) == 1 {
+								return search(p.Info(d), r.Results[0], depth+1)
+							}
+						}
+					}
+				}
+			}
+		}
+		return found{}
+	}
+	n := 0
+	ast.Inspect(fd.Body, func(m ast.Node) bool {
+		c, ok := m.(*ast.CallExpr)
+		if !ok {
+			return true
+		}
+		cn := core.CalleeName(info, c)
+		if cn != "bytes.Buffer.Write" && cn != "bytes.Buffer.WriteString" {
+			return true
+		}
+		n++
+		key := fmt.Sprintf("json.HTMLEscape/write#%d escaped-text-or-nothing-to-escape", n)
+		if !usesSrc(c.Args[0]) {
+			def := core.Unparen(core.ResolveSingleDef(info, fd.Body, c.Args[0]))
+			call, isCall := def.(*ast.CallExpr)
+			if id, isID := def.(*ast.Ident); isID {
+				// buf, _ := marshal(v)
+				ast.Inspect(fd.Body, func(d ast.Node) bool {
+					if as, ok := d.(*ast.AssignStmt); ok && len(as.Rhs) == 1 && len(as.Lhs) == 2 {
+						if l, ok := as.Lhs[0].(*ast.Ident); ok && core.ObjOf(info, l) == core.ObjOf(info, id) {
+							call, isCall = core.Unparen(as.Rhs[0]).(*ast.CallExpr)
+						}
+					}
+					return true
+				})
+			}
+			rc.Check(isCall && core.CalleeName(info, call) == "json.marshal", key, c.Pos(), "the text written is the result of marshal (the encoder with HTML escaping)")
+			return true
+		}
+		// a raw copy of the source: the conditions on the way
+		var conds []condNode
+		conds = append(conds, condChainNodes(fd, c)...)
+		need := func(f found) string {
+			if !f.ok {
+				return "the test is not a search for bytes or characters this rule can read"
+			}
+			for _, b := range []byte{'<', '>', '&'} {
+				if !f.bytes[b] {
+					return fmt.Sprintf("the test does not look for %q", b)
+				}
+			}
+			if !f.bytes[0xE2] && !(f.runes[0x2028] && f.runes[0x2029]) {
+				return "the test does not find U+2028 and U+2029 (a \"\\xe2\" in the set of ContainsAny/IndexAny is an invalid character, not the byte)"
+			}
+			return ""
+		}
+		msg := "the source is copied to dst without any test"
+		for _, cn := range conds {
+			if cn.pos {
+				continue // the branch where the search found something
+			}
+			msg = need(search(info, cn.cond, 0))
+			if msg == "" {
+				break
+			}
+		}
+		rc.Check(msg == "", key, c.Pos(), "HTMLEscape copies its source to dst: %s; a text with a raw line separator (or <, >, &) reaches the page unescaped", msg)
+		return true
+	})
+	if n < 1 {
+		rc.Unknown("json.HTMLEscape/writes", fd.Pos(), "no Write to dst found")
+	}
 }
